@@ -246,12 +246,23 @@ class BC2D:
     """contract of model.namedBC at the call sites of calc_bc (both runs): opaque boundary states, one value per boundary
     face (pointwise, leaf bc/*/pointwise); the commutation clauses (leaves bc/*) are instantiated between logged calls"""
 
-    def __init__(self):
+    def __init__(self, real_for=None):
         self.calls = []
+        self.real_for = real_for        # predicate on the normal (2-tuple): run the real function for these sides
 
     def apply(self, interp, f, bound):
         data = bound["data"]
         two_d = any(isinstance(d, A.Sym2D) for d in data)
+        if two_d and self.real_for is not None:
+            from contracts.flux_contract import _flat, _snap
+            nrm = tuple(int(T.conc_value(x)) if T.is_sym(x) else int(x) for x in _flat([_snap(bound["dir"])], 0))
+            if self.real_for(nrm):
+                interp.active_contracts.discard(QN_BC)
+                try:
+                    return interp.call(interp.getattr(bound["self"], "namedBC"),
+                                       [bound["name"], bound["dir"], data, bound["param"]], {})
+                finally:
+                    interp.active_contracts.add(QN_BC)
         k = len(self.calls)
         if two_d:
             n = data[0].length
@@ -292,20 +303,6 @@ class BC2D:
             if k != "type":
                 rel.append(T.treal(c2["param"].get(k)) == T.treal(v))
         rel = z3.And(*rel)
-        import os
-        if os.environ.get("C15DBG"):
-            from pyvc.discharge import _subterm_ids
-            ids, cs, ap = set(), set(), set()
-            _subterm_ids(rel, ids, cs, ap)
-            st = [rel]; seen = set(); names = set()
-            while st:
-                x = st.pop()
-                if x.get_id() in seen: continue
-                seen.add(x.get_id())
-                if z3.is_app(x):
-                    if x.num_args() == 0 and "!" in x.decl().name(): names.add(x.decl().name())
-                    st.extend(x.children())
-            print("DBG bc instance fresh consts", c2["name"], sorted(names), flush=True)
         # (no trigger: the position term under which the solver meets the boundary state may be written differently)
         T.cur().add_fact(z3.Implies(rel, z3.And(*[y == x for x, y in zip(smap(o1), o2)])))
         return rel
@@ -360,17 +357,6 @@ def cons_arrays(n, tag="Q"):
             A.input_array("E" + tag, n)]
 
 
-class DualFlux:
-    """euler1d and euler2d share the method euler.numflux: dispatch on the model object to the contract of its kind"""
-
-    def __init__(self, c2, c1):
-        self.c2, self.c1 = c2, c1
-
-    def apply(self, interp, f, bound):
-        two_d = bound["self"].cls.name == "euler2d"
-        return (self.c2 if two_d else self.c1).apply(interp, f, bound)
-
-
 def flux_instance(rec1, f1, rec2, f2, swap, smap, n1, n2, fmap):
     """leaf flux clause instantiated between face f1 of run 1 and face f2 of run 2 (both 2-D records)"""
     a1, a2 = rec1["args_at"](f1), rec2["args_at"](f2)
@@ -401,9 +387,6 @@ def cell_array(n, ncol, fn):
         if w is None and not T.is_sym(c) and not T.is_sym(ncol):
             w = (c // ncol, c % ncol)
         if w is None:
-            import os
-            if os.environ.get("C15DBG"):
-                print("DBG cell_array fallback", T.simp(c), "ncol", ncol, "pc", [str(q)[:80] for q in T.cur().pc][-4:], flush=True)
             with T.no_safety():
                 w = (T.floordiv(c, ncol), T.mod(c, ncol))
         return fn(w[0], w[1])
@@ -479,7 +462,12 @@ def operator_symmetries(chk):
     for numname, haskappa in NUM2D:
         for tname in TRANS:
             for bcname, (bl, br, bb, bt) in BCSETS.items():
-                if chk.tier == "quick" and numname == "extrapol2dk" and bcname not in ("per-per", "insub-outsub/sym", "sym/insub-outsub"):
+                # quick tier: representative closures (periodic, walls + inlet/outlet along x or y, supersonic along y); thorough: all
+                if chk.tier == "quick" and numname == "extrapol2dk" and (tname, bcname) not in (
+                        ("transpose", "per-per"), ("transpose", "insub-outsub/sym"), ("reflect-x", "insub-outsub/sym"), ("reflect-y", "per-per")):
+                    continue
+                if chk.tier == "quick" and numname == "extrapol2d1" and bcname not in ("per-per", "insub-outsub/sym", "sym/insub-outsub",
+                                                                                      "per/outsup-insup"):
                     continue
                 cfg = "fvm2dcart/%s/%s/%s" % (numname, tname, bcname)
                 chk.configs.append(cfg)
@@ -587,10 +575,6 @@ def operator_symmetries(chk):
                         a1, a2 = rec1["args_at"](fidx1), rec2["args_at"](fidx2)
                         L1, R1 = a1[:4], a1[4:8]
                         want = (smap(R1) + smap(L1)) if swap else (smap(L1) + smap(R1))
-                        import os
-                        if os.environ.get("C15DBG") and fname == os.environ.get("C15DBG"):
-                            for j in range(8):
-                                print("DBG", fname, j, "WANT", want[j].sexpr()[:3000]); print("DBG GOT", a2[j].sexpr()[:3000], flush=True)
                         for j, (x, y) in enumerate(zip(want, a2[:8])):
                             lemma("face-states/%s/%s[%s]" % (fname, "L" if j < 4 else "R", names[j % 4]), y == x)
                         lemma("flux-arguments-are-images/%s" % fname,
@@ -600,6 +584,154 @@ def operator_symmetries(chk):
                         prove("residual-of-the-image-is-the-image[%s]" % comp_names("euler2d")[k2], r2f[k2] == sg * r1f[k1], replay=rp)
                     canary("canary", r2f[0] == r2f[0] + 1)
                 chk.run(cfg, op)
+
+
+def one_dimensional_agreement(chk):
+    """2-D operator on data that vary along one direction only (zero transverse velocity) against fvm1d.rhs on the uniform
+    mesh of the same cell size, same flux name, reconstruction of the same order (extrapol2d1 / extrapol1, extrapol2dk(k) /
+    extrapolk(k)), same boundary conditions along the direction, periodic or wall closure across it"""
+    it = chk.interp
+    PAIRS = [("per", "per"), ("sym", "sym"), ("insub", "outsub"), ("outsub", "insub"), ("insup", "outsup")]
+    for numname, haskappa in (("extrapol2d1", False), ("extrapol2dk", True)):
+        for dn in ("x", "y"):
+            for b0, b1 in PAIRS:
+                for tv in ("per", "sym"):
+                    if chk.tier == "quick" and haskappa and not ((dn, b0, b1, tv) in (("x", "per", "per", "sym"), ("y", "insub", "outsub", "per"))):
+                        continue
+                    if chk.tier == "quick" and not haskappa and not (tv == "sym" and (b0, b1) in (("per", "per"), ("insub", "outsub"), ("sym", "sym"))
+                                                                     or tv == "per" and (b0, b1) in (("per", "per"), ("insup", "outsup"))):
+                        continue
+                    cfg = "fvm2dcart-vs-fvm1d/%s/along-%s/%s-%s/across=%s" % (numname, dn, b0, b1, tv)
+                    chk.configs.append(cfg)
+                    rp = {"fn": "agree1d_clause", "args": {"num": numname, "direction": dn, "bc": [b0, b1], "transverse": tv}}
+
+                    def op(numname=numname, haskappa=haskappa, dn=dn, b0=b0, b1=b1, tv=tv, rp=rp):
+                        nx, ny = z3.Int("nx"), z3.Int("ny")
+                        lx, ly = z3.Real("lx"), z3.Real("ly")
+                        assume(z3.And(nx >= 1, ny >= 1, lx > 0, ly > 0))
+                        a, b = z3.Int("a"), z3.Int("b")           # generic cell: row a, column b
+                        assume(z3.And(a >= 0, a < ny, b >= 0, b < nx))
+                        lemma("index-products", z3.And(a * nx >= 0, (ny - 1 - a) * nx >= 0, (nx - 1) * (ny - 1) >= 0))
+                        for t in (0, 1, 2):
+                            lemma("index-products/a/%d" % t,
+                                  z3.And(z3.Implies(a >= t, (a - t) * nx >= 0), z3.Implies(a <= t, (t - a) * nx >= 0),
+                                         z3.Implies(a <= ny - 1 - t, (ny - 1 - t - a) * nx >= 0),
+                                         z3.Implies(a >= ny - 1 - t, (a - (ny - 1 - t)) * nx >= 0)))
+                        alongx = dn == "x"
+                        nl, ll, il = (nx, lx, b) if alongx else (ny, ly, a)     # 1-D problem: number of cells, length, generic cell
+                        end0, end1, t0, t1 = ("left", "right", "bottom", "top") if alongx else ("bottom", "top", "left", "right")
+                        bc2 = {end0: bc_value(b0), end1: bc_value(b1), t0: bc_value(tv), t1: bc_value(tv)}
+                        bc2 = {k: bc2[k] for k in ("left", "right", "bottom", "top")}
+                        for v in bc2.values():
+                            for k, x in v.items():
+                                if k != "type":
+                                    assume(x > 0)
+                        mesh2 = it.call(get(chk, "flowdyn.mesh2d", "mesh2d"), [nx, ny, lx, ly], {})
+                        mesh1, hcell, x0 = abstract_unimesh(chk, nl)
+                        assume(hcell * z3.ToReal(nl) == ll)             # same cell size along the direction
+                        m2, info = make_model(chk, "euler2d")
+                        m1, _ = make_model(chk, "euler1d")
+                        kap = z3.Real("kappa")
+                        num2 = it.call(get(chk, "flowdyn.xnum", numname), [kap] if haskappa else [], {})
+                        num1 = make_num(chk, "extrapolk", kappa=kap) if haskappa else make_num(chk, "extrapol1")
+                        d2 = it.call(get(chk, "flowdyn.modeldisc", "fvm2dcart"), [m2, mesh2, num2, bc2], {})
+                        d1 = make_disc1d(chk, m1, mesh1, num1, bcL=bc2[end0], bcR=bc2[end1])
+                        Q1 = [_pos(A.input_array("rhoQ", nl)), A.input_array("mQ", nl), A.input_array("EQ", nl)]
+                        q1 = [x._snapshot_at() for x in Q1]
+                        lift = (lambda w, z=None: [w[0], w[1], z3.RealVal(0), w[2]]) if alongx else \
+                               (lambda w, z=None: [w[0], z3.RealVal(0), w[1], w[2]])
+                        n = nx * ny
+
+                        def comp(k):
+                            def val(r, c):
+                                i = c if alongx else r
+                                return lift([T.treal(f(i)) for f in q1])[k]
+                            return cell_array(n, nx, val)
+                        Q2 = [comp(0), A.Sym2D([comp(1), comp(2)]), comp(3)]
+                        f2, f1 = make_field(chk, m2, mesh2, Q2), make_field(chk, m1, mesh1, Q1)
+                        across = (lambda nrm: nrm[0] == 0) if alongx else (lambda nrm: nrm[1] == 0)
+                        bcc = BC2D(real_for=across)
+                        it.contracts[QN_BC] = bcc
+                        it.active_contracts.add(QN_BC)
+                        it.contracts[QN_C2P] = C2PContract(lifts=[lift])
+                        it.active_contracts.add(QN_C2P)
+                        c2 = FluxContractPair(info)
+                        it.contracts[QN_FLUX] = c2
+                        it.active_contracts.add(QN_FLUX)
+                        try:
+                            with lazy_safety():
+                                res2 = [r.copy() for r in it.call(it.getattr(d2, "rhs"), [f2], {})]
+                                res1 = it.call(it.getattr(d1, "rhs"), [f1], {})
+                        finally:
+                            for q in (QN_BC, QN_C2P, QN_FLUX):
+                                it.active_contracts.discard(q)
+                        rec2, rec1 = c2.c2.last, c2.c1.last
+                        prove("flux-evaluated-once-in-each-run", T.band(c2.c2.calls == 1, c2.c1.calls == 1), replay=rp)
+                        calls2 = [c for c in bcc.calls if c["two_d"]]
+                        calls1 = [c for c in bcc.calls if not c["two_d"]]
+                        names = ("rho", "ux", "uy", "p")
+                        # ---- faces along the direction: images of the 1-D faces -----------------------------------------------------------------
+                        for dF in (0, 1):
+                            F = il + dF
+                            fidx2 = xface(nx, a, b + dF) if alongx else yface(nx, ny, a + dF, b)
+                            nrm = EX if alongx else EY
+                            a2, a1 = rec2["args_at"](fidx2), rec1["args_at"](F)
+                            L1, R1 = a1[:3], a1[3:6]
+                            # boundary-condition clause instances at the two ends (1-D calls: [left, right])
+                            if calls1:
+                                for side, dvec, c1_ in ((end0, SIDES[end0], calls1[0]), (end1, SIDES[end1], calls1[1])):
+                                    cc2 = bcc.by_dir(calls2, dvec)
+                                    pos = a if alongx else b
+                                    nrm2, w2, o2 = bcc.at(cc2, pos)
+                                    w1, o1 = c1_["data"], [T.treal(x) for x in c1_["out"]]
+                                    d1v = dvec[0] if alongx else dvec[1]
+                                    rel = z3.And(*([T.tz(c1_["name"] == cc2["name"]), T.tz(c1_["dir"] == d1v)] +
+                                                   [y == x for x, y in zip(lift(w1), w2)] +
+                                                   [T.treal(cc2["param"].get(k)) == T.treal(v) for k, v in c1_["param"].items() if k != "type"]))
+                                    T.cur().add_fact(z3.Implies(rel, z3.And(*[y == x for x, y in zip(lift(o1), o2)])))
+                                    if dF == 0:
+                                        lemma("bc-arguments-are-images/%s" % side, rel)
+                            want = lift(L1) + lift(R1)
+                            for j, (x, y) in enumerate(zip(want, a2[:8])):
+                                lemma("face-states/along%d/%s[%s]" % (dF, "L" if j < 4 else "R", names[j % 4]), y == x)
+                            rel = z3.And(*([y == x for x, y in zip(want, a2[:8])] + [x == v for x, v in zip(a2[8:], nrm)] +
+                                           [y == x for x, y in zip(rec1["params"], rec2["params"])] + [T.tz(rec1["name"] == rec2["name"])]))
+                            g2 = [T.treal(g.at(fidx2)) for g in rec2["G"]]
+                            g1 = [T.treal(g.at(F)) for g in rec1["G"]]
+                            T.cur().add_fact(z3.Implies(rel, z3.And(*[y == x for x, y in zip(lift(g1), g2)])), trigger=g2[0])
+                            lemma("flux-arguments-are-images/along%d" % dF, rel)
+                        # ---- faces across the direction: both see the same pair of states, their fluxes cancel ------------------------------------
+                        fa0 = yface(nx, ny, a, b) if alongx else xface(nx, a, b)
+                        fa1 = yface(nx, ny, a + 1, b) if alongx else xface(nx, a, b + 1)
+                        x0_, x1_ = rec2["args_at"](fa0), rec2["args_at"](fa1)
+                        for j, (x, y) in enumerate(zip(x0_[:8], x1_[:8])):
+                            lemma("face-states/across/%s[%s]" % ("L" if j < 4 else "R", names[j % 4]), y == x)
+                        same = z3.And(*[y == x for x, y in zip(x0_, x1_)])
+                        for g in rec2["G"]:
+                            g1_ = T.treal(g.at(fa1))
+                            T.cur().add_fact(z3.Implies(same, g1_ == T.treal(g.at(fa0))), trigger=g1_)
+                        lemma("transverse-faces-see-the-same-states", same)
+                        r2f, r1f = flat_at(res2, a * nx + b), flat_at(res1, il)
+                        kn, kt = (1, 2) if alongx else (2, 1)
+                        prove("mass-residual-is-the-1-D-one", r2f[0] == r1f[0], replay=rp)
+                        prove("momentum-residual-is-the-1-D-one", r2f[kn] == r1f[1], replay=rp)
+                        prove("transverse-momentum-untouched", r2f[kt] == 0, replay=rp)
+                        prove("energy-residual-is-the-1-D-one", r2f[3] == r1f[2], replay=rp)
+                        canary("canary", r2f[0] == r2f[0] + 1)
+                    chk.run(cfg, op)
+
+
+class FluxContractPair:
+    """euler1d and euler2d share the method euler.numflux: dispatch on the model object to the (opaque) contract of its kind"""
+
+    def __init__(self, info):
+        from contracts.flux_contract import FluxContract
+        self.c2 = FluxContract("euler2d", info, clauses=(), requires=False, opaque=True)
+        self.c1 = FluxContract("euler1d", info, clauses=(), requires=False, opaque=True)
+
+    def apply(self, interp, f, bound):
+        two_d = bound["self"].cls.name == "euler2d"
+        return (self.c2 if two_d else self.c1).apply(interp, f, bound)
 
 
 def c2p_leaves(chk):
@@ -660,3 +792,4 @@ def build(chk):
     bc_leaves(chk)
     c2p_leaves(chk)
     operator_symmetries(chk)
+    one_dimensional_agreement(chk)
